@@ -39,7 +39,11 @@ func newBaseMatcher(results []interface{}, funTyp reflect.Type) *BaseMatcher {
 // Result 回参
 func (c *BaseMatcher) Result() []reflect.Value {
 	if len(c.results) <= 1 {
-		return c.results[c.curNum]
+		if len(c.results) == 1 {
+			// 记录唯一的返回值已经被使用过, 之后再追加返回值时从下一个开始
+			atomic.CompareAndSwapInt32(&c.curNum, 0, 1)
+		}
+		return c.results[0]
 	}
 
 	curNum := atomic.LoadInt32(&c.curNum)
